@@ -40,6 +40,10 @@ CHECKS = {
    technique="bounded-exhaustive enumeration of base family graphs x all edit sequences up to k of the right-hand copy x similarity options x entry points, with marker accounting and referential-closure oracles",
    text="Five referentially closed base graphs against their right-hand copy after every sequence of up to 2 (quick) / 3 (thorough) edits from 11 edit kinds, plus empty, disjoint and clashing-pointer documents on either side, under default/strict/lenient thresholds through the library call and the query function: every marker in exactly one output individual, at most one left and one right marker per individual, every fact of both originals present, output re-decodes to the same document, every HUSB/WIFE/CHIL/FAMS/FAMC reference resolves to the record now representing the person it denoted.",
    note="Independent of which matching the implementation chooses (unique marker per individual). Jobs unset; schedules are C11's business. Two known findings share the root cause 'no pointer rewriting'; reference findings are collected per case so they cannot mask other findings."),
+ "C12": dict(engine="E3", category="exploration", design_ref="§4 C12",
+   technique="bounded-exhaustive enumeration of all operand pairs over small string alphabets, a date window, a finite individual universe x option grid, small lists and family graphs, against range/symmetry/identity/monotonicity laws",
+   text="All ordered pairs: strings over {a,b} up to length 8/10 and {a,b,c} up to 5/6 (JaroWinkler x prefix sizes x boost thresholds), names with case/punctuation/multi-byte letters (StringSimilarity), ~420 DATE values x 3 maxYears with per-row distance monotonicity, 75 individuals x 106 option settings (Similarity, SurroundingSimilarity, WeightedSimilarity), lists of 0..3 individuals x 3 MinimumSimilarity, 21 family graphs; every score in [0,1] exactly, operand-order independent within 1e-12, 1 on identity, 0 beyond maxYears, 0.5 where the documentation promises neutrality.",
+   note="Tolerance 1e-12 fixed upfront (legitimate re-association moves results by ~1e-16; a differing Jaro match moves them by >=1e-3). Missing names score 0 by design (not documented as neutral) and are not judged against 0.5."),
  "C05": dict(engine="E3", category="exploration", design_ref="§4 C05",
    technique="bounded-exhaustive enumeration of every calendar date against an own calendar reference model",
    text="Every day, month-year and year (quick: three 400-year blocks; thorough: all of 1..9999) is run through the real Date.Time/Years/IsBefore/IsAfter/Duration/Minimum/Maximum and compared with own proleptic-Gregorian arithmetic; exhaustive as the property's quantifier states.",
